@@ -10,7 +10,7 @@ Line protocol (state is threaded through the lines of one run):
 pt   : i:<rats> | f:<rats>              (dtype, values)
 val  : s:<rat> | a:<d1xd2..|_>:<rats>   (python scalar | array with shape)
 var  : <name>:<size>:<i|f>:<lb list, _ = inf>:<ub list>:<N | value list>
-state line: db=<pt{n=v&..};..> file=<idx@pt[k&k|s,s|j:shape:data+..];..> read=<as db|E>
+state line: in=<0|1: is the op inside the property's quantifier> db=<pt{n=v&..};..> file=<idx@pt[k&k|s,s|j:shape:data+..];..> read=<as db|E>
   (`-` for an empty collection; outputs sorted by name; file entries by index; arrays by sub-index)
 -/
 
@@ -125,14 +125,14 @@ def stepLine (st : DState) (line : String) : DState × String :=
       match parsePt pt, outs.mapM parseOut with
       | some p, some o =>
         let s' := doStore id s p o
-        (some s', showState s')
+        (some s', (if inScopeB s (.store p o) then "in=1 " else "in=0 ") ++ showState s')
       | _, _ => (st, "bad-op")
   | ["export", m] =>
     match st with
     | none => (none, "E")
     | some s =>
       match doExport s (m == "a") with
-      | some s' => (some s', showState s')
+      | some s' => (some s', "in=1 " ++ showState s')
       | none => (none, "E")
   | _ => (st, "bad-op")
 
